@@ -10,6 +10,11 @@
   R4  cross-language atomicity: a stored procedure that issues START TRANSACTION (implicit commit of the caller's transaction) is never
       CALLed on an open Transaction after a write; procedures CALLed from inside other procedures contain no transaction statements;
       every path through a procedure that starts a transaction ends it exactly once (COMMIT or ROLLBACK)
+  R5  inside Transaction a failing statement aborts the transaction: every `try` that encloses a statement execution (cursor.execute /
+      executemany, directly or through a helper of the class) re-raises on every handler path; no Transaction method is retried or
+      sleeps-and-retries (a statement re-issued inside an open transaction runs after InnoDB may already have rolled the transaction back)
+  R6  one Database operation == one transaction: every Database method opens at most one transaction per call (one `self.start()` or one
+      call of another transaction-opening method), never inside a loop; the array of execute_many reaches a single Transaction.execute_many
 Not decided: MySQL/InnoDB behaviour itself; which error codes the server actually emits.
 """
 from __future__ import annotations
@@ -270,14 +275,124 @@ def r4(ctx: Ctx) -> None:
     ctx.unit('call_sites', n_tx + n_db)
 
 
+def _always_raises(stmts: List[ast.stmt]) -> bool:
+    for st in stmts:
+        if isinstance(st, ast.Raise):
+            return True
+        if isinstance(st, ast.If) and st.orelse and _always_raises(st.body) and _always_raises(st.orelse):
+            return True
+        if isinstance(st, (ast.With, ast.AsyncWith)) and _always_raises(st.body):
+            return True
+    return False
+
+
+EXEC_ATTRS = ('execute', 'executemany', 'callproc')
+
+
+def r5(ctx: Ctx, m: pf.Module) -> None:
+    tc = m.cls('Transaction')
+    meths = {f.name: f for f in tc.body if isinstance(f, (ast.AsyncFunctionDef, ast.FunctionDef))}
+    # methods that (transitively, within the class) execute a statement on a cursor
+    def direct(fn) -> bool:
+        return any(isinstance(c, ast.Call) and isinstance(c.func, ast.Attribute) and c.func.attr in EXEC_ATTRS and 'cursor' in pf.nsrc(c.func.value) for c in ast.walk(fn)) or \
+            any(isinstance(a, ast.Attribute) and a.attr in EXEC_ATTRS and 'cursor' in pf.nsrc(a.value) for a in ast.walk(fn))
+    executing: Set[str] = {n for n, f in meths.items() if direct(f)}
+    changed = True
+    while changed:
+        changed = False
+        for n, f in meths.items():
+            if n not in executing and any(isinstance(c, ast.Call) and isinstance(c.func, ast.Attribute) and pf.nsrc(c.func.value) == 'self' and c.func.attr in executing for c in ast.walk(f)):
+                executing.add(n)
+                changed = True
+    ctx.need(len(executing) >= 7, f'Transaction: only {sorted(executing)} execute statements')
+
+    def executes(node: ast.AST, aliases: Set[str]) -> bool:
+        for c in ast.walk(node):
+            if isinstance(c, ast.Attribute) and c.attr in EXEC_ATTRS and 'cursor' in pf.nsrc(c.value):
+                return True
+            if isinstance(c, ast.Call) and isinstance(c.func, ast.Attribute) and pf.nsrc(c.func.value) == 'self' and c.func.attr in executing:
+                return True
+            if isinstance(c, ast.Call) and isinstance(c.func, ast.Name) and c.func.id in aliases:
+                return True
+        return False
+
+    for n in sorted(executing):
+        f = meths[n]
+        cons = f'{DB}::Transaction.{n}'
+        ctx.check(not _retried(f), 'R5', cons + '::not retried', 'a Transaction method is wrapped in the retry decorator: the statement would be re-issued on a transaction in an unknown state', m.path, f.lineno)
+        sleeps = [c for c in ast.walk(f) if isinstance(c, ast.Call) and (pf.dotted(c.func) or '').split('.')[-1] in ('sleep_before_try', 'sleep', 'retry_transient_errors', 'retry_transient_mysql_errors')]
+        ctx.check(not sleeps, 'R5', cons + '::no in-transaction back-off', f'{n} sleeps/retries inside the open transaction (line {sleeps[0].lineno if sleeps else 0}): statement-level retry is not atomic -- after a deadlock or lock '
+                  'wait timeout the server has rolled back earlier statements, and the re-issued statement is then committed without them', m.path, f.lineno)
+        # local names bound to a cursor's execute method (`execute = cursor.executemany if many else cursor.execute`)
+        aliases = {t.id for a in ast.walk(f) if isinstance(a, ast.Assign) for t in a.targets if isinstance(t, ast.Name)
+                   and any(isinstance(x, ast.Attribute) and x.attr in EXEC_ATTRS and 'cursor' in pf.nsrc(x.value) for x in ast.walk(a.value))}
+        tries = [t for t in ast.walk(f) if isinstance(t, ast.Try) and t.handlers and executes(ast.Module(body=t.body, type_ignores=[]), aliases)]
+        bad = [t for t in tries if not all(_always_raises(h.body) for h in t.handlers)]
+        ctx.check(not bad, 'R5', cons + '::statement failure aborts', f'{n}: the `try` at line {bad[0].lineno if bad else 0} encloses a statement execution and has a handler path that does not re-raise: a failed '
+                  'statement is swallowed or re-issued inside the still-open transaction', m.path, f.lineno)
+
+
+def r6(ctx: Ctx, m: pf.Module) -> None:
+    dbc = m.cls('Database')
+    meths = {f.name: f for f in dbc.body if isinstance(f, (ast.AsyncFunctionDef, ast.FunctionDef))}
+    opening: Set[str] = set()
+
+    def opens_of(fn) -> List[Tuple[ast.AST, str]]:
+        out: List[Tuple[ast.AST, str]] = []
+        for c in pf.walk_shallow(fn):
+            if isinstance(c, ast.Call) and isinstance(c.func, ast.Attribute) and pf.nsrc(c.func.value) == 'self':
+                if c.func.attr == 'start':
+                    out.append((c, 'self.start()'))
+                elif c.func.attr in opening:
+                    out.append((c, f'self.{c.func.attr}()'))
+        return out
+    changed = True
+    while changed:
+        changed = False
+        for n, f in meths.items():
+            if n not in opening and n != 'start' and opens_of(f):
+                opening.add(n)
+                changed = True
+    ctx.need(len(opening) >= 9, f'Database: only {sorted(opening)} open transactions')
+    for n in sorted(opening):
+        f = meths[n]
+        cons = f'{DB}::Database.{n}'
+        ops = opens_of(f)
+        par = m.parents()
+        in_loop = []
+        for c, what in ops:
+            x = c
+            while x is not f:
+                p = par[x]
+                if isinstance(p, (ast.For, ast.AsyncFor, ast.While)) and x is not getattr(p, 'iter', None) or isinstance(p, (ast.ListComp, ast.SetComp, ast.DictComp, ast.GeneratorExp)):
+                    in_loop.append((c, what))
+                    break
+                x = p
+        ctx.check(len(ops) == 1 and not in_loop, 'R6', cons + '::one transaction per operation', f'{n} opens {len(ops)} transactions per call ({[w for _, w in ops]}{", in a loop" if in_loop else ""}): a failure between two of '
+                  'them leaves the earlier ones committed -- the operation is no longer all-or-nothing', m.path, f.lineno)
+    em = meths.get('execute_many')
+    ctx.need(em is not None, 'Database.execute_many not found')
+    fwd = [c for c in ast.walk(em) if isinstance(c, ast.Call) and pf.nsrc(c.func) == 'tx.execute_many']
+    arr = em.args.args[2].arg if len(em.args.args) > 2 else None
+    ok = len(fwd) == 1 and len(fwd[0].args) >= 2 and pf.nsrc(fwd[0].args[1]) == arr
+    if not any(w == 'self.start()' for _, w in opens_of(em)):
+        ctx.ok('R6', f'{DB}::Database.execute_many::whole array in one transaction', 'delegates to another single-transaction method (covered by one transaction per operation)')
+    else:
+        ctx.check(ok, 'R6', f'{DB}::Database.execute_many::whole array in one transaction', 'Database.execute_many does not hand its whole argument array to a single Transaction.execute_many', m.path, em.lineno)
+
+
 def run(ctx: Ctx) -> None:
     ctx.explanation = 'Retry decision table and code tables, nesting of retry around transactions at every retried site, exit discipline, and cross-language transaction rules over the SQL program.'
     ctx.rule('R1', 'retry wrapper re-raises iff the classifier is falsy; classifier == {InternalError 1205, OperationalError 1040/1213/2003/2013} with truthy levels', 7)
     ctx.rule('R2', 'retry wrapper encloses the transaction everywhere; no retried function takes an open Transaction; generators not retried', 24)
     ctx.rule('R3', 'Transaction exit: rollback on exception else commit, release in finally, shielded, errors propagate; autocommit off', 7)
     ctx.rule('R4', 'procedures: balanced transactions, no transaction statements in nested callees/triggers/functions; no implicit commit after a write on an open Transaction', 36)
+    ctx.rule('R5', 'inside Transaction a failing statement aborts the transaction: no handler swallows/re-issues, no retry decorator, no back-off', 21)
+    ctx.rule('R6', 'every Database operation opens exactly one transaction per call, never in a loop; execute_many forwards its whole array', 10)
     m = pf.load(DB)
     r1(ctx, m)
     r2(ctx, m)
     r3(ctx, m)
     r4(ctx)
+    r5(ctx, m)
+    r6(ctx, m)
